@@ -33,6 +33,12 @@ type Case struct {
 	V2     *Val   `json:"v2,omitempty"`
 	Access string `json:"access,omitempty"` // globals | symbols | use | evalplain | evalname
 	Direct bool   `json:"direct,omitempty"` // var: the script assigns a composite literal / call result directly (not through a local variable)
+	// retain: one retained wrapper re-entered / called repeatedly / called concurrently (retain.go)
+	Mode   string  `json:"mode,omitempty"`   // reenter | repeat | concurrent
+	Tmpl   int     `json:"tmpl,omitempty"`   // reenter: function shape 0..2
+	Depth  int     `json:"depth,omitempty"`  // reenter: recursion depth through the host
+	Ks     []int64 `json:"ks,omitempty"`     // constants of the function body
+	Caller string  `json:"caller,omitempty"` // host | script: who makes the outermost call
 	Feat   []string `json:"feat,omitempty"` // out-of-domain features switched on for this case (generator gates)
 }
 
